@@ -84,6 +84,9 @@ type sessionInfo struct {
 	// result, so it cannot overtake it.
 	firing      bool
 	pendingLate bool
+	// updating is true while a late update of the session is being handed to the
+	// consumer; like firing it defers further updates to whoever is delivering.
+	updating bool
 	// older chains the previously fired sessions of the same key that are still
 	// inside their allowance (triggeredSessions holds the most recent one).
 	older *sessionInfo
@@ -500,7 +503,7 @@ func (sw *SessionWindow) flushPendingLateUpdates() {
 		}
 	}
 	for _, info := range pending {
-		sw.triggerLateUpdateLocked(info.session)
+		sw.triggerLateUpdateLocked(info)
 	}
 }
 
@@ -735,40 +738,60 @@ func (sw *SessionWindow) handleLateData(row types.Row) bool {
 	// window_start/window_end are read from its rows).
 	row.Slot = info.session.slot
 	info.session.data = append(info.session.data, row)
-	if info.firing {
-		// the session's first result is still on its way out: the expiry goroutine
-		// emits the update right after it
+	if info.firing || info.updating {
+		// the session's first result (or an earlier update) is still on its way
+		// out: whoever delivers it emits the update right after it
 		info.pendingLate = true
 		return true
 	}
-	sw.triggerLateUpdateLocked(info.session)
+	sw.triggerLateUpdateLocked(info)
 	return true
 }
 
 // triggerLateUpdateLocked triggers a late update for a session (must be called with lock held)
-func (sw *SessionWindow) triggerLateUpdateLocked(s *session) {
-	if len(s.data) == 0 {
+//
+// Updates of one session are delivered one at a time: while an update is on its
+// way out the session is marked updating, so a late event arriving meanwhile is only
+// appended and noted (pendingLate) and goes out with the next round of this loop.
+// Without that, the expiry goroutine and the Add goroutine could each be
+// delivering an update of the same session, and the older one — copied first,
+// delivered last — replaced the newer one at the consumer, losing its late events.
+func (sw *SessionWindow) triggerLateUpdateLocked(info *sessionInfo) {
+	if info.firing || info.updating {
+		info.pendingLate = true // whoever is delivering sends the next update too
 		return
 	}
+	for {
+		s := info.session
+		if len(s.data) == 0 {
+			return
+		}
 
-	// Extract session data including late data
-	resultData := make([]types.Row, len(s.data))
-	copy(resultData, s.data)
+		// Extract session data including late data
+		resultData := make([]types.Row, len(s.data))
+		copy(resultData, s.data)
 
-	// Get callback reference before releasing lock
-	callback := sw.callback
+		// Get callback reference before releasing lock
+		callback := sw.callback
 
-	// Release lock before calling callback and sending to channel to avoid blocking
-	sw.mu.Unlock()
+		// Release lock before calling callback and sending to channel to avoid blocking
+		info.updating = true
+		sw.mu.Unlock()
 
-	if callback != nil {
-		callback(resultData)
+		if callback != nil {
+			callback(resultData)
+		}
+
+		sw.sendResult(resultData)
+
+		// Re-acquire lock
+		sw.mu.Lock()
+		info.updating = false
+		if !info.pendingLate {
+			return
+		}
+		info.pendingLate = false
 	}
-
-	sw.sendResult(resultData)
-
-	// Re-acquire lock
-	sw.mu.Lock()
 }
 
 // closeExpiredSessions closes sessions that have exceeded allowedLateness
